@@ -44,7 +44,10 @@ def make(m):
 
 
 def run_one(m, tier, tests):
-    d = make(m)
+    try:
+        d = make(m)
+    except SystemExit as e:  # pattern no longer present in the tree: report, do not kill the matrix
+        return {"id": m["id"], "prop": m["prop"], "stale": str(e)[:200], **{p: {"rc": -1, "keys": [], "s": 0} for p in m["prop"].split(",")}}
     out = {"id": m["id"], "prop": m["prop"]}
     try:
         if tests:
